@@ -262,6 +262,25 @@ def item_source(item, name, alt=0):
     return "%s %s(%s) { %s %s }" % (kw, name, params, " ".join(lets), body)
 
 
+def has_const_twin(item):
+    return (item["kind"] == "fn" and not item["params"] and not item.get("place")
+            and not default_hits_compiler_panic(item["ret"]))
+
+
+def const_name(decl):
+    return "K_" + decl.upper()
+
+
+def const_source(item, name):
+    return "const %s: %s = %s;" % (const_name(name), roto_type(item["ret"], 0), default_expr(item["ret"]))
+
+
+def nonfn_names(decl, item, header=True):
+    """names of items the script declares that are not functions (a constant, a record type)"""
+    out = [const_name(decl), "pkg." + const_name(decl)] if has_const_twin(item) else []
+    return out + (["Rec"] if header else [])
+
+
 def script_source(named_items):
     leaves = set()
     for _, item in named_items:
@@ -276,6 +295,9 @@ def script_source(named_items):
                  "fn helper_user(a: String, b: List[String], c: Rec) -> bool { let d = c; a == \"x\" && b == [a] && d.x == 1 }"]
     place = named_items[0][1].get("place") if named_items else None
     decls = [item_source(item, name, k) for k, (name, item) in enumerate(named_items)]
+    # name class "nonfn": next to every parameterless function a constant of the function's return type
+    # (its initialiser is compiled like a function `fn() -> T`, but it is not an item get_function may hand out)
+    decls += [const_source(item, name) for name, item in named_items if has_const_twin(item)]
     if place:
         # module tree: the items live in module `at`; a module of fmIn declares a filtermap of its own,
         # every other module only a plain function (the root additionally the usual header)
@@ -420,6 +442,11 @@ def cases_of_family(family, rows, universe):
             case = {"op": "names", "names": unknown_names(name) + unknown_paths(decl, c["item"]), "set": family}
         elif nc == "helper":
             case = {"op": "helper", "k": sum(1 for x in cases if x["op"] == "helper"), "set": family}
+        elif nc == "nonfn":
+            nn = nonfn_names(decl, c["item"])   # "Rec" is a record type, or (scripts with root namesakes) not declared at all
+            if not nn:
+                continue
+            case = {"op": "names", "names": nn, "set": family}
         else:
             raise vlib.ToolError("unknown name class " + nc)
         cases.append(case)
@@ -752,8 +779,10 @@ def impl_to_spec(tier, ev, verd, stats):
             x = rng.random()
             if x < 0.90:
                 nc, case = "declared", {"op": "probe", "name": name, "ids": probe_ids}
-            elif x < 0.96:
+            elif x < 0.94:
                 nc, case = "unknown", {"op": "names", "names": unknown_names(name), "ids": probe_ids}
+            elif x < 0.97 and has_const_twin(item):
+                nc, case = "nonfn", {"op": "names", "names": [const_name(name)], "ids": probe_ids}
             else:
                 nc, case = "helper", {"op": "helper", "k": k, "ids": probe_ids}
             triples.append((name, item, (nc, case, probe_ids)))
@@ -830,7 +859,7 @@ def vacuity_guard(stats):
     for k in REASONS + ["ok"]:
         if stats["reasons"][k] == 0:
             raise vlib.ToolError("no (item, Rust signature) pair is decided by the gate arm '%s' (vacuous)" % k)
-    for nc in ("declared", "unknown", "helper"):
+    for nc in ("declared", "unknown", "helper", "nonfn"):
         if not stats["rows_by_class"].get(nc):
             raise vlib.ToolError("no row of name class %s" % nc)
     for kind in ("fn", "filtermap"):
@@ -957,6 +986,7 @@ def replay(path):
         nc = e["nameclass"]
         case = ({"op": "probe", "name": name, "ids": [i]} if nc == "declared" else
                 {"op": "names", "names": unknown_names(name), "ids": [i]} if nc == "unknown" else
+                {"op": "names", "names": [const_name(name)], "ids": [i]} if nc == "nonfn" else
                 {"op": "helper", "k": 0, "ids": [i]})
         sets = write_sets("replay", {})
         res = vlib.run_batch("c04", [case], extra=[script, sets], nproc=1, pid=PID, tag="replay", stall=120)[0]
